@@ -11,14 +11,16 @@ def jobs(tier):
   if q:
     return [
         Job("law", M, "h_law", dict(C12_NLEAVES=4, C12_COMP=2, C12_DEPTH=2), shards=47, timeout=t),
+        Job("law-all-leaves", M, "h_law", dict(C12_NLEAVES=11, C12_COMP=1, C12_DEPTH=1), shards=7, timeout=t,
+            note="pairs of all eleven leaf kinds, no composites"),
         Job("perm", M, "h_perm", dict(C12_PDEPTH=2, C12_PNLEAVES=6, C12_PCOMP=5), shards=23, timeout=t),
-        Job("roundtrip", M, "h_roundtrip", dict(C12_RT_TYPES=6), shards=61, timeout=t),
+        Job("roundtrip", M, "h_roundtrip", dict(C12_RT_TYPES=4), shards=61, timeout=t),
     ]
   return [
       Job("law", M, "h_law", dict(C12_NLEAVES=5, C12_COMP=5, C12_DEPTH=2), shards=251, timeout=t),
-      Job("law-leaves9", M, "h_law", dict(C12_NLEAVES=9, C12_COMP=2, C12_DEPTH=2), shards=251, timeout=t,
-          note="all nine leaf kinds, unions and lists only"),
-      Job("perm", M, "h_perm", dict(C12_PDEPTH=2, C12_PNLEAVES=9, C12_PCOMP=5), shards=47, timeout=t),
+      Job("law-leaves11", M, "h_law", dict(C12_NLEAVES=11, C12_COMP=2, C12_DEPTH=2), shards=251, timeout=t,
+          note="all eleven leaf kinds, unions and lists only"),
+      Job("perm", M, "h_perm", dict(C12_PDEPTH=2, C12_PNLEAVES=11, C12_PCOMP=5), shards=47, timeout=t),
       Job("perm-nested", M, "h_perm", dict(C12_PDEPTH=3, C12_PNLEAVES=2, C12_PCOMP=2, C12_PERM_INNER=2), shards=127, timeout=t),
       Job("roundtrip", M, "h_roundtrip", dict(C12_RT_TYPES=16), shards=127, timeout=t),
   ]
